@@ -501,8 +501,6 @@ def confirm(pid, v, blobs=None):
             kid = None          # capacity below the configured value is outside every known role
         elif pid == 'C07':
             kid = 'K-C07a' if 'shrink_unused' in flags else ('K-C07b' if 'grow_with_surplus' in flags else ('K-C07c' if 'shrink_assigned_waiter' in flags else ('K-C07d' if 'shrink_overlaps_release' in flags else None)))
-        elif pid == 'C05' and v.get('known') == 'K-C05' and 'status().waiting is 0 while' in v['what']:
-            kid = 'K-C05'
         return {'status': 'confirmed', 'path': path, 'steps': len(native), 'known': kid}
     except ReplayError as e:
         return {'status': 'replay_error', 'detail': str(e)[:600]}
